@@ -85,15 +85,49 @@ CHECKS = {
                      'futures (bounded), recombination correct from genuine shares (proved, C12), and a bounded enumeration of crash points of one party in m-party runs: survivors '
                      'output the correct value or never complete', note='liveness not decided; one program; crash = later messages never delivered',
                 technique='deductive verification of the framing/recombination contracts + bounded crash enumeration on a ghost network'),
-    'C20': dict(engine='native-enum', category='other', design_ref='DESIGN.md §5 C20',
-                text='executable contracts of every field operator (binary, reflected, in-place, int/polynomial mixing, **, shifts, ==/hash, field axioms) evaluated '
+    'C04': dict(engine='native-enum+symx', category='other', design_ref='DESIGN.md §5 C04',
+                text='executable contracts of the secure field operators evaluated with the m = 1 runtime over all element pairs of the listed prime, binary and odd-characteristic '
+                     'extension fields and every SecFld construction route, against independent table arithmetic; lifted types checked at construction and in m-party concrete runs',
+                note='bounded: listed fields; internal randomness not controlled except in the forced-retry entry; one known finding (reflected bitwise operators with public left operand)',
+                technique='bounded exhaustive contract evaluation on the real functions'),
+    'C27': dict(engine='pyvc+lean+native-enum', category='other', design_ref='DESIGN.md §5 C27',
+                text='the generic double-and-add FiniteGroupElement.repeat is proved against an abstract group for every integer n (engine A + Lean power lemma); group axioms, '
+                     'repeat, generator order, coordinate-system agreement and encode/decode of every family are evaluated on exhaustive small sets / seeded samples against independent '
+                     'oracles (own permutation composition, modular powers, affine curve arithmetic); found and led to repairs in Ed448 extended coordinates and hyperelliptic encode/decode/constructor',
+                note='group axioms per family only bounded (sampled for large groups); class groups and hyperelliptic curves without independent oracle; one known finding (genus-2 extended encode)',
+                technique='deductive verification of repeat + bounded contract evaluation per group family'),
+    'C29': dict(engine='symx', category='other', design_ref='DESIGN.md §5 C29',
+                text='the real _sort runs on Boolean tokens with contract stubs of < and if_swap: data-independent control flow, linear use of values, and one SAT query per n (0-1 principle) '
+                     'decide sortedness for every input order up to n = 32 (thorough 128); sorted/min/max/min_max/argmin/argmax/seclist.sort on symbolic integers incl. ties',
+                note='0-1 principle; comparison and if_swap contracts from C01; identity key only; bounded in n', technique='symbolic execution of the real sorting network + SAT (0-1 principle); modular symbolic execution for selection'),
+    'C30': dict(engine='symx', category='other', design_ref='DESIGN.md §5 C30',
+                text='add_bits, to_bits, from_bits, find (all documented argument combinations), unit_vector, trailing_zeros, gcp2 run for real on symbolic bit vectors/values and masks, or '
+                     'exhaustively over all inputs and masks of the instance; found and led to the repairs of to_bits (mask high part zero) and find([])',
+                note=B_NOTE, technique='modular symbolic execution (z3) / exhaustive enumeration of the real functions (bounded)'),
+    'C31': dict(engine='symx', category='other', design_ref='DESIGN.md §5 C31',
+                text='every seclist operation runs for real on symbolic contents and a symbolic secret index; the whole resulting view and the result equal the same Python list operation; '
+                     'histories follow by induction over the per-operation contracts', note=B_NOTE + '; unit_vector and comparisons by contract stubs (C30, C01)',
+                technique='modular symbolic execution against an abstract list view (bounded in length)'),
+    'C32': dict(engine='native-enum', category='other', design_ref='DESIGN.md §5 C32',
+                text='universal-model argument: the real reduce/accumulate run with concatenation on the free monoid, so agreement with functools/itertools for a length n holds for every '
+                     'associative f; all n up to the bound, both methods, initial values, depth bounds', note='bounded in n (64 quick / 512 thorough), complete over f', technique='bounded evaluation on the free monoid'),
+    'C35': dict(engine='pyvc+native-enum', category='other', design_ref='DESIGN.md §5 C35',
+                text='partial (safety half): barrier proved to return only when no earlier coroutine is pending (suspensions havoc the counters), shutdown structure by AST dominance, '
+                     '_pc_level counting invariant evaluated on every completion path of mpc_coro', note='liveness (loops exit, all shutdowns complete) not decided',
+                technique='deductive verification of barrier + syntactic dominance + bounded path enumeration'),
+    'C39': dict(engine='native-enum', category='other', design_ref='DESIGN.md §5 C39',
+                text='all SecFld argument combinations against an independent reading of its docstring, lifting for all (m,t) with m <= 9 under stand-in runtimes, field size vs number of parties, '
+                     'setup() threshold gate (runs and AST structure); found and led to two SecFld repairs',
+                note='bounded argument grids; one known finding (threshold setter accepts 2t >= m); gates are assert statements (vanish under python -O)', technique='bounded exhaustive contract evaluation on the real functions'),
+    'C20': dict(engine='pyvc+native-enum', category='other', design_ref='DESIGN.md §5 C20',
+                text='prime-field operators proved for all primes and elements by engine A (43 method/case contracts); executable contracts of every field operator (binary, reflected, in-place, int/polynomial mixing, **, shifts, ==/hash, field axioms) evaluated '
                      'exhaustively on the real classes for all elements of the listed prime, binary and odd-characteristic extension fields against independent table arithmetic',
                 note='bounded: exhaustive inside the listed fields only; one known finding (odd-characteristic extension-field shifts) is listed in known_findings.txt',
                 technique='bounded exhaustive contract evaluation on the real functions'),
-    'C21': dict(engine='native-enum', category='other', design_ref='DESIGN.md §5 C21',
+    'C21': dict(engine='pyvc+lean+native-enum', category='other', design_ref='DESIGN.md §5 C21',
                 text='is_sqr / sqrt / inverse sqrt contracts evaluated for all elements of all prime fields p <= 257 and the listed extension/binary fields against brute-force squares',
                 note='bounded: exhaustive inside the listed fields only', technique='bounded exhaustive contract evaluation on the real functions'),
-    'C22': dict(engine='native-enum', category='other', design_ref='DESIGN.md §5 C22',
+    'C22': dict(engine='pyvc+native-enum', category='other', design_ref='DESIGN.md §5 C22',
                 text='byte codec, pickle and signed/unsigned view contracts evaluated on the real classes over the listed fields and element lists',
                 note='bounded: listed fields, list lengths 0..5; GF((p,n,w)) with w outside range(p) outside the domain', technique='bounded exhaustive contract evaluation on the real functions'),
     'C23': dict(engine='native-enum', category='other', design_ref='DESIGN.md §5 C23',
